@@ -1,6 +1,6 @@
 """C03 — Fajr, Isha (and Imsaak) occur at the configured solar depression angle (engine M, UF + lemmas)."""
 from ..common import *
-from ..obl import base, kernels
+from ..obl import base, kernels, policy, jd
 from . import kernelprop as kp
 
 LEVEL = "model_checking"
@@ -16,8 +16,15 @@ def run(rep):
     rep.assumptions += kp.COMMON_ASSUMPTIONS + [
         "Imsaak = Fajr recomputed at angle Fajr+Imsaak (get_imsaak's control flow is checked under C12); the 0.5 deg 'true instantaneous "
         "altitude' clause depends on the ephemeris and is outside the claim"]
-    res = base.run_obligations(rep, [(kernels.fajr_isha, 60), (kernels.fajr_isha_monotone, 60)])
-    kp.confirm(rep, res, WANT, 60)
+    res = base.run_obligations(rep, [(kernels.fajr_isha, 60), (kernels.fajr_isha_monotone, 60), (policy.imsaak, None), (jd.jd_formula, (1600, 2399))])
+    if any(x["cands"] for x in res if x["name"].startswith("get_imsaak")):
+        from . import policyprop as pp
+        if not pp.imsaak_grid(rep):
+            rep.inconclusive.append("get_imsaak counterexample not reproduced through the public API")
+    if any(x["cands"] for x in res if x["name"].startswith("JulianDay")):
+        from . import c01
+        c01.confirm_jd(rep, res)
+    kp.confirm(rep, [x for x in res if x["name"].startswith("get_fajr")], WANT, 60)
     rep.samples = [{"obligation": o["name"], "status": o["status"], "paths": o.get("paths"), "queries": o.get("queries")} for o in rep.obligations]
 
 
